@@ -42,6 +42,9 @@ class Stall(BaseException):
 
 
 def _stall_handler(signum, frame):
+    # some loops in the code under test (asyncore's dispatcher) swallow every exception: keep knocking
+    import signal
+    signal.setitimer(signal.ITIMER_REAL, 0.2)
     raise Stall()
 
 
